@@ -3,7 +3,8 @@
 Require Extraction.
 Require Import ExtrOcamlBasic.
 From Coq Require Import ZArith QArith List.
-From Pandora Require Import Lib.Value Model.Confidence.
+From Pandora Require Import Lib.Value Lib.Ext Model.Confidence Model.ConfPipeline.
+From Pandora Require Model.Cbca.
 Import ListNotations.
 Open Scope Z_scope.
 
@@ -41,6 +42,55 @@ Definition run_steps (steps : list value) (st : dsbands Z * dsbands Z) : dsbands
   fold_left (fun s e => conf_step (as_zs (vnth 0 e)) (method_of_code (as_z (vnth 1 e))) (as_zs (vnth 2 e)) s)
             steps st.
 
+(* ---- the concrete pipeline of Model/ConfPipeline.v: confidence steps then the wta disparity step.
+   core on the wire: (nr nc is_max subpix disps volume cvmask); a dataset's bands: 0 = dataset is None,
+   1 = no confidence_measure, ((name-codes band) ...); a step: (name-codes method-code params) *)
+Definition dec_core (v : value) : core :=
+  let vol := as_volume (vnth 5 v) in
+  let msk := as_zss (vnth 6 v) in
+  mkCore (as_z (vnth 0 v)) (as_z (vnth 1 v)) (as_b (vnth 2 v)) (as_z (vnth 3 v)) (as_qs (vnth 4 v))
+         (fun r c => map of_fin (Cbca.lookup [] vol r c))
+         (fun r c => Cbca.lookup 0 msk r c) None.
+Definition dec_dsb (v : value) : dsbands band :=
+  match v with
+  | VZ 0 => None
+  | VZ _ => Some None
+  | VL l => Some (Some (map (fun e => (as_zs (vnth 0 e), as_omap (vnth 1 e))) l))
+  end.
+Definition enc_dsb (d : dsbands band) : value :=
+  match d with
+  | None => VZ 0
+  | Some None => VZ 1
+  | Some (Some l) => VL (map (fun e => VL [of_zs (fst e); of_omap (snd e)]) l)
+  end.
+Definition dec_cmethod (code : Z) (p : value) : cmethod :=
+  match code with
+  | 0 => MAmb (as_b (vnth 0 p)) (as_q (vnth 1 p)) (as_qs (vnth 2 p))
+  | 1 => MRisk (as_qs (vnth 0 p))
+  | 2 => MBounds (as_q (vnth 0 p))
+                 (match vnth 1 p with
+                  | VL (_ :: _) as g => Some (as_zs (vnth 0 g), as_q (vnth 1 g), as_z (vnth 2 g), as_z (vnth 3 g),
+                                              as_q (vnth 4 g))
+                  | _ => None
+                  end)
+  | _ => MStd (as_q (vnth 0 p)) (as_z (vnth 1 p)) (as_omap (vnth 2 p))
+  end.
+Definition dec_bstep (e : value) : bstep := SConf (as_zs (vnth 0 e)) (dec_cmethod (as_z (vnth 1 e)) (vnth 2 e)).
+
+Definition run_conf_wta (v : value) : value :=
+  let k := dec_core (vnth 3 v) in
+  let steps := map dec_bstep (as_l (vnth 0 v)) ++ [SWta (as_z (vnth 4 v)) (as_oq (vnth 5 v))] in
+  match bexec steps (Some k, Some (dec_dsb (vnth 1 v), dec_dsb (vnth 2 v))) with
+  | (Some k1, Some (bd, bc)) =>
+    match k_disp k1 with
+    | Some (d, m) =>
+      VL [of_omap (Cbca.tabulate (k_nr k) (k_nc k) d); of_zss (Cbca.tabulate (k_nr k) (k_nc k) m);
+          enc_dsb bd; enc_dsb bc]
+    | None => VL [VZ (-2)]
+    end
+  | _ => VL [VZ (-1)]
+  end.
+
 Definition dispatch (fid : Z) (v : value) : value :=
   match fid with
   | 1 => of_zss (amb_map (as_qs (vnth 0 v)) (orient (as_b (vnth 2 v)) (as_volume (vnth 1 v))))
@@ -61,6 +111,8 @@ Definition dispatch (fid : Z) (v : value) : value :=
                               (as_q (vnth 5 v)) (as_z (vnth 6 v)) (as_z (vnth 7 v)) (as_q (vnth 8 v)) in
           VL [of_omap (fst r); of_omap (snd r)]
   | 8 => of_qmap (var_raster (as_z (vnth 0 v)) (as_qss (vnth 1 v)))
+  | 12 => run_conf_wta v
+  | 11 => of_omap (std_band (as_q (vnth 0 v)) (as_z (vnth 1 v)) (as_omap (vnth 2 v)))
   | 9 => of_omap (normalize_percentile (as_b (vnth 0 v)) (as_q (vnth 1 v)) (as_qss (vnth 2 v)))
   | _ => VL [VZ (-1)]
   end.
